@@ -265,3 +265,8 @@ Definition run_node_items (gs : list (bexp * guard_action)) (callee : list stmt)
                    | Some r => r
                    | None => run_method callee [n] flags s
                    end) ns s.
+
+(* add_nodes_from: a loop over items n | (n, dict); `newdict` is the call's **attr, or a copy of it updated with the item's dict *)
+Definition run_node_attr_items (body : list stmt) (items : list (lbl * option attrs)) (a : attrs) (s : hg) : res :=
+  loop (fun s it => match exec_list body (mkEnv [] [] (fst it) (match snd it with None => a | Some d => aupdate a d end) LNone [] [] None LNone []) s
+                    with (s', o) => (s', o, O) end) items s.
